@@ -1008,6 +1008,8 @@ def run(chk):
         ("Opm::Group::ProductionCMode2Int", None, "Opm::Group::ProductionCModeFromInt"),
         ("Opm::Group::InjectionCMode2Int", None, "Opm::Group::InjectionCModeFromInt"),
         ("Opm::Group::GuideRateInjTargetToInt", None, "Opm::Group::GuideRateInjTargetFromInt"),
+        ("wellStatus", None, "status_from_int"),
+        ("compOrder", None, "order_from_int"),
     ]
 
     def find_fn(name, ptype=None):
